@@ -41,6 +41,8 @@ func runC06(c *Ctx) {
 	c06R2Untag(c)
 	c06R2ResolverMaps(c)
 	c05Wrappers(c, "C06.R2.refuse-before-mutate", true)
+	c06R3Absent(c)
+	c06R4Agreement(c)
 }
 
 // ---------------------------------------------------------------- R1
@@ -570,6 +572,10 @@ func c06R1(c *Ctx) {
 	// anchors: guarded fields and their mutexes must exist
 	for _, sp := range append(c06GuardSpecs(), c06GraphSpec()) {
 		i := strings.LastIndex(sp.Type, ".")
+		if i < 0 {
+			c.LostAnchor(R, "guarded type of the lock specification (state role no longer resolves)")
+			continue
+		}
 		n := c.P.Named(sp.Type[:i], sp.Type[i+1:])
 		if n == nil {
 			c.LostAnchor(R, sp.Type)
@@ -1773,6 +1779,11 @@ func c06IsResolvedDigest(v ssa.Value, resolves []ssa.CallInstruction) bool {
 }
 
 var c06Mutants = []Mutant{
+	// R4 (keeps the repository's tests green)
+	{Name: "memory-tag-truncates-long-reference", File: "content/memory/memory.go", Old: "\treturn s.resolver.Tag(ctx, desc, reference)", New: "\tif len(reference) > 128 {\n\t\treference = reference[:128]\n\t}\n\treturn s.resolver.Tag(ctx, desc, reference)", Expect: "C06.R4.tag-map-agreement|(*~/content/memory.Store).Tag|binds-callers-reference-to-callers-descriptor"},
+	// R3 (both keep the repository's tests green)
+	{Name: "file-fetch-missing-file-reports-raw-error", File: "content/file/file.go", Old: "\t\t\tif os.IsNotExist(err) {\n\t\t\t\treturn nil, fmt.Errorf(\"%s: %s: %w\", target.Digest, target.MediaType, errdef.ErrNotFound)\n\t\t\t}\n\t\t\treturn nil, err\n\t\t}\n\n\t\treturn fp, nil", New: "\t\t\treturn nil, err\n\t\t}\n\n\t\treturn fp, nil", Expect: "C06.R3.absent-reports-not-found|(*~/content/file.Store).Fetch|os.Open"},
+	{Name: "oci-resolve-blob-missing-reports-stat-error", File: "content/oci/readonlyoci.go", Old: "\t\tif errors.Is(err, fs.ErrNotExist) {\n\t\t\treturn ocispec.Descriptor{}, errdef.ErrNotFound\n\t\t}\n\t\treturn ocispec.Descriptor{}, err\n\t}\n\n\treturn ocispec.Descriptor{\n\t\tMediaType: descriptor.DefaultMediaType,", New: "\t\treturn ocispec.Descriptor{}, fmt.Errorf(\"failed to stat blob %s: %w\", dgst, err)\n\t}\n\n\treturn ocispec.Descriptor{\n\t\tMediaType: descriptor.DefaultMediaType,", Expect: "C06.R3.absent-reports-not-found|~/content/oci.resolveBlob|io/fs.Stat"},
 	// R1
 	{Name: "graph-yield-body-reads-nodes-unlocked", File: "internal/graph/memory.go", Old: "\tfor k := range set {\n\t\tres = append(res, m.nodes[k])\n\t}\n", New: "\tm.lock.RUnlock()\n\tfor k := range func(yield func(descriptor.Descriptor) bool) {\n\t\tfor k := range set {\n\t\t\tif !yield(k) {\n\t\t\t\treturn\n\t\t\t}\n\t\t}\n\t} {\n\t\tres = append(res, m.nodes[k])\n\t}\n\tm.lock.RLock()\n", Expect: "C06.R1.guarded-by|(*~/internal/graph.Memory).Predecessors$"},
 	{Name: "resolver-tag-under-read-lock", File: "internal/resolver/memory.go", Old: "func (m *Memory) Tag(_ context.Context, desc ocispec.Descriptor, reference string) error {\n\tm.lock.Lock()\n\tdefer m.lock.Unlock()\n", New: "func (m *Memory) Tag(_ context.Context, desc ocispec.Descriptor, reference string) error {\n\tm.lock.RLock()\n\tdefer m.lock.RUnlock()\n", Expect: "C06.R1.guarded-by|(*~/internal/resolver.Memory).Tag|"},
@@ -1808,4 +1819,471 @@ var c06Mutants = []Mutant{
 	{Name: "file-push-marks-name-before-write", File: "content/file/file.go", Old: "\tif needUnpack := expected.Annotations[AnnotationUnpack]; needUnpack == \"true\" && !s.SkipUnpack {", New: "\tstatus.exists = true\n\tif needUnpack := expected.Annotations[AnnotationUnpack]; needUnpack == \"true\" && !s.SkipUnpack {", Expect: "C06.R2.refuse-before-mutate|(*~/content/file.Store).push|exists-set-only-after-success"},
 	{Name: "oci-store-tags-manifest-before-push", File: "content/oci/oci.go", Old: "\tif err := s.storage.Push(ctx, expected, reader); err != nil {\n\t\treturn err\n\t}\n\tif err := s.graph.Index(ctx, s.storage, expected); err != nil {\n\t\treturn err\n\t}\n\tif descriptor.IsManifest(expected) {\n\t\t// tag by digest\n\t\treturn s.tag(ctx, expected, expected.Digest.String())\n\t}\n\treturn nil", New: "\tif descriptor.IsManifest(expected) {\n\t\t// tag by digest\n\t\tif err := s.tag(ctx, expected, expected.Digest.String()); err != nil {\n\t\t\treturn err\n\t\t}\n\t}\n\tif err := s.storage.Push(ctx, expected, reader); err != nil {\n\t\treturn err\n\t}\n\treturn s.graph.Index(ctx, s.storage, expected)", Expect: "C06.R2.refuse-before-mutate|(*~/content/oci.Store).Push|bookkeeping-only-after-successful-inner-push"},
 	{Name: "oci-resolve-swallows-resolver-error", File: "content/oci/oci.go", Old: "\t\t\treturn resolveBlob(os.DirFS(s.root), reference)\n\t\t}\n\t\treturn ocispec.Descriptor{}, err", New: "\t\t\treturn resolveBlob(os.DirFS(s.root), reference)\n\t\t}\n\t\treturn ocispec.Descriptor{}, nil", Expect: "C06.R2.refuse-before-mutate|(*~/content/oci.Store).Resolve|resolver-verdict-returned"},
+}
+
+// ---------------------------------------------------------------- R3: absent content is reported as not-found
+
+// c06R3Absent decides the sentinel discipline of "fetching absent content
+// reports not-found" at the leaves that establish absence themselves:
+//   - a probe of the file system (Open/Stat/Remove) in an operation on a
+//     descriptor (or in the digest resolver) whose failure is tested for
+//     fs.ErrNotExist: from that edge every return wraps errdef.ErrNotFound —
+//     or, for an Exists-shaped function, answers (false, nil);
+//   - a miss in the content map of the memory CAS, and a name of the file
+//     store whose status says "not there": the same.
+//
+// (The converse — not-found only when absent — is C05.R5.)
+func c06R3Absent(c *Ctx) {
+	const R = "C06.R3.absent-reports-not-found"
+	c.Expect(R, 6) // 8 on the pinned tree; probes moved into helpers without a descriptor parameter are not instances
+	const nf = "~/errdef.ErrNotFound"
+	isNotExist := func(v ssa.Value) bool {
+		n := sentinelName(v)
+		return n == "io/fs.ErrNotExist" || n == "os.ErrNotExist"
+	}
+	probes := map[string]bool{"os.Open": true, "os.Stat": true, "os.Lstat": true, "io/fs.Stat": true, "(io/fs.FS).Open": true, "os.Remove": true, "os.ReadFile": true, "io/fs.ReadFile": true}
+	existsShaped := func(fn *ssa.Function) bool {
+		r := fn.Signature.Results()
+		return r.Len() == 2 && types.Identical(r.At(0).Type(), types.Typ[types.Bool])
+	}
+	// judge: every return reached by walk is the "absent" answer
+	judge := func(fn *ssa.Function, walk func(visit func(r *ssa.Return, pred *ssa.BasicBlock))) (bool, string) {
+		errIdx := ErrResultIndex(fn.Signature)
+		ok, why, n := true, "", 0
+		walk(func(r *ssa.Return, pred *ssa.BasicBlock) {
+			n++
+			vals := resolveAt(r.Results[errIdx], r.Block(), pred, r, map[ssa.Value]bool{})
+			if existsShaped(fn) {
+				for _, v := range vals {
+					if ErrNilStatus(v, 0) != IsNil && !c06Wraps(fn, v, nf) {
+						ok, why = false, "the return at "+c.P.Pos(r.Pos())+" reports "+describe(v)+" for absent content instead of (false, nil)"
+					}
+				}
+				for _, v := range resolveAt(r.Results[0], r.Block(), pred, r, map[ssa.Value]bool{}) {
+					if k, isK := v.(*ssa.Const); !isK || k.Value == nil || k.Value.String() != "false" {
+						ok, why = false, "the return at "+c.P.Pos(r.Pos())+" does not answer false for absent content"
+					}
+				}
+				return
+			}
+			if len(vals) == 0 {
+				ok, why = false, "return without error value"
+			}
+			for _, v := range vals {
+				if !c06Wraps(fn, v, nf) {
+					ok, why = false, "the return at "+c.P.Pos(r.Pos())+" yields "+describe(v)+", not an error wrapping "+nf
+				}
+			}
+		})
+		if n == 0 {
+			return false, "no return is reachable from the point where absence is established"
+		}
+		if ok {
+			why = ifelse(existsShaped(fn), "absence is answered (false, nil)", "every return behind the point where absence is established wraps "+nf)
+		}
+		return ok, why
+	}
+	n := 0
+	bp := c05BlobPathFns(c.P)
+	for _, pkg := range []string{"content/oci", "content/file", "internal/cas", "content/memory"} {
+		for _, fn := range c05FuncsOfPkg(c.P, pkg) {
+			if ErrResultIndex(fn.Signature) < 0 || fn.Parent() != nil {
+				continue
+			}
+			// operations that answer for a descriptor (not the publishing ones, which take the stream), and the resolver of a digest reference
+			role := false
+			hasReader := false
+			for _, p := range fn.Params {
+				if it, isI := p.Type().Underlying().(*types.Interface); isI && !c05IsOCIDescriptor(p.Type()) && it.NumMethods() > 0 && p.Type().String() == "io.Reader" {
+					hasReader = true
+				}
+			}
+			if c07DescParam(fn) != nil && !hasReader {
+				role = true
+			}
+			if fn.Signature.Results().Len() == 2 && c05IsOCIDescriptor(fn.Signature.Results().At(0).Type()) && c07DescParam(fn) == nil {
+				// resolveBlob: digest reference -> descriptor of the blob at its blob path
+				for _, bc := range Calls(fn, func(string) bool { return true }) {
+					if g := StaticCallee(bc); g != nil && bp[g] {
+						role = true
+					}
+				}
+			}
+			if !role {
+				continue
+			}
+			tn := FnName(fn)
+			seen := map[string]int{}
+			// (1) file-system probes
+			for _, call := range Calls(fn, func(n string) bool { return probes[n] }) {
+				if _, isDefer := call.(*ssa.Defer); isDefer {
+					continue
+				}
+				e := ErrOf(call)
+				if e == nil {
+					continue
+				}
+				al := Aliases(e)
+				var absent []Edge
+				for _, i := range Ifs(fn) {
+					cond, t, _ := ifEdges(i)
+					cc, isCall := cond.(*ssa.Call)
+					if !isCall || len(cc.Call.Args) == 0 || !al[cc.Call.Args[0]] {
+						continue
+					}
+					switch CalleeName(cc) {
+					case "os.IsNotExist":
+						absent = append(absent, t)
+					case "errors.Is":
+						if isNotExist(cc.Call.Args[1]) {
+							absent = append(absent, t)
+						}
+					}
+				}
+				eq, _ := c05EqEdges(fn, func(v ssa.Value) bool { return al[v] }, isNotExist)
+				absent = append(absent, eq...)
+				nm := CalleeName(call)
+				// which probe establishes absence depends on what the operation answers: a reader (content, bool or descriptor
+				// result) by opening / stat-ing, an error-only operation (Delete) by the removal itself
+				if fn.Signature.Results().Len() == 1 && nm != "os.Remove" {
+					continue
+				}
+				if len(absent) == 0 {
+					// an ignored or merely logged failure (cleanup) reports nothing
+					reported := false
+					for _, at := range RetAtoms(fn, ErrResultIndex(fn.Signature)) {
+						if al[at.Val] || al[strip(at.Val)] || derivesFromAny(at.Val, al, 0) {
+							reported = true
+						}
+					}
+					if !reported {
+						continue
+					}
+					// the classification may live in a helper that receives the error (notFoundOr(err, desc)); otherwise the raw
+					// file-system error of a missing blob reaches the caller, who cannot tell absence from failure
+					seen[nm]++
+					n++
+					okH, whyH := false, "the failure of "+nm+" is not tested for fs.ErrNotExist: absent content is reported with a raw file-system error instead of "+nf
+					for _, hc := range Calls(fn, func(string) bool { return true }) {
+						h := StaticCallee(hc)
+						if h == nil || !inModule(h) || len(h.Blocks) == 0 || ErrResultIndex(h.Signature) < 0 {
+							continue
+						}
+						for i, a := range hc.Common().Args {
+							if !(al[a] || al[strip(a)]) || i >= len(h.Params) {
+								continue
+							}
+							hal := Aliases(h.Params[i])
+							var hab []Edge
+							for _, ifi := range Ifs(h) {
+								cond, t, _ := ifEdges(ifi)
+								if cc, isCall := cond.(*ssa.Call); isCall && len(cc.Call.Args) > 0 && hal[cc.Call.Args[0]] {
+									if CalleeName(cc) == "os.IsNotExist" || (CalleeName(cc) == "errors.Is" && isNotExist(cc.Call.Args[1])) {
+										hab = append(hab, t)
+									}
+								}
+							}
+							heq, _ := c05EqEdges(h, func(v ssa.Value) bool { return hal[v] }, isNotExist)
+							hab = append(hab, heq...)
+							if len(hab) == 0 {
+								continue
+							}
+							if o, _ := judge(h, func(visit func(r *ssa.Return, pred *ssa.BasicBlock)) {
+								for _, ed := range hab {
+									c05ReachF(ed.To, 0, ed.From, nil, nil, c05EdgeFacts(ed), visit)
+								}
+							}); o && !existsShaped(fn) {
+								if r := c05ErrFlow(hc, ErrFlowOpts{}); r.OK || func() bool {
+									for _, at := range RetAtoms(fn, ErrResultIndex(fn.Signature)) {
+										if at.Val == hc.Value() {
+											return true
+										}
+									}
+									return false
+								}() {
+									okH, whyH = true, "the failure is classified by "+FnName(h)+", which wraps "+nf+" on the fs.ErrNotExist edge"
+								}
+							}
+						}
+					}
+					c.Check(R, fmt.Sprintf("%s|%s#%d", tn, nm, seen[nm]), call.Pos(), okH, whyH)
+					continue
+				}
+				seen[nm]++
+				n++
+				ok, why := judge(fn, func(visit func(r *ssa.Return, pred *ssa.BasicBlock)) {
+					for _, ed := range absent {
+						c05ReachF(ed.To, 0, ed.From, nil, nil, c05EdgeFacts(ed), visit)
+					}
+				})
+				c.Check(R, fmt.Sprintf("%s|%s#%d", tn, nm, seen[nm]), call.Pos(), ok, why)
+			}
+			// (2) misses of the content map / of the name status
+			type probe struct {
+				at   ssa.Instruction
+				val  ssa.Value
+				what string
+			}
+			var ps []probe
+			for _, call := range Calls(fn, func(string) bool { return true }) {
+				if _, isDefer := call.(*ssa.Defer); isDefer {
+					continue
+				}
+				if mv := c05MapOp(call); mv != nil && mv.Name == "(*sync.Map).Load" && mv.Ok != nil && c05IsFieldAddrOf(mv.Recv, "~/internal/cas.Memory", c05Cur.F("cas.content")) {
+					ps = append(ps, probe{call.(ssa.Instruction), mv.Ok, "content-map-miss"})
+				}
+				if g := StaticCallee(call); g != nil && pkg == "content/file" && fnPkgPath(g) == pkgPath("content/file") && call.Value() != nil &&
+					g.Signature.Results().Len() == 1 && types.Identical(g.Signature.Results().At(0).Type(), types.Typ[types.Bool]) &&
+					len(c05FieldUses([]*ssa.Function{g}, c05Cur.T("file.nameStatus"), c05Cur.F("file.status.exists"))) > 0 {
+					ps = append(ps, probe{call.(ssa.Instruction), call.Value(), "unknown-name"})
+				}
+			}
+			// only operations that answer "here is the content" / "it exists" establish absence by such a miss
+			if r := fn.Signature.Results(); !(existsShaped(fn) || (r.Len() == 2 && types.IsInterface(r.At(0).Type()))) {
+				ps = nil
+			}
+			for _, p := range ps {
+				// the value is tested at all?  (a function that just hands the boolean on is judged by C05.R5)
+				te, fe := BoolTests(fn, Aliases(p.val))
+				tested := len(te)+len(fe) > 0
+				for _, r := range *p.val.Referrers() {
+					if u, isU := r.(*ssa.UnOp); isU && u.Op == token.NOT {
+						tested = true
+					}
+				}
+				if !tested {
+					continue
+				}
+				seen[p.what]++
+				n++
+				ok, why := judge(fn, func(visit func(r *ssa.Return, pred *ssa.BasicBlock)) {
+					f := c05NewFacts()
+					for a := range Aliases(p.val) {
+						f.isTrue[a] = false
+					}
+					c05ReachF(p.at.Block(), instrIndex(p.at)+1, nil, nil, nil, f, visit)
+				})
+				c.Check(R, fmt.Sprintf("%s|%s#%d", tn, p.what, seen[p.what]), p.at.Pos(), ok, why)
+			}
+		}
+	}
+	if n == 0 {
+		c.LostAnchor(R, "operations that establish absence of content (file-system probes tested for fs.ErrNotExist, content-map misses)")
+	}
+}
+
+// ---------------------------------------------------------------- R4: the stores and their tag map agree on reference and descriptor
+
+// c06R4Agreement: "Resolve returns the descriptor most recently tagged": a
+// store's Tag binds, in its tag resolver, exactly the caller's reference to
+// the caller's descriptor on every successful path (the only other binding
+// allowed is the descriptor's own digest string -> the same descriptor), and
+// a store's Resolve asks the resolver for exactly the caller's reference.
+func c06R4Agreement(c *Ctx) {
+	const R = "C06.R4.tag-map-agreement"
+	c.Expect(R, 6)
+	isTagEffect := func(n string) bool {
+		return n == "(~/content.Tagger).Tag" || n == "(*~/internal/resolver.Memory).Tag" || n == "(~/content.TagResolver).Tag"
+	}
+	strParam := func(fn *ssa.Function) *ssa.Parameter {
+		var p *ssa.Parameter
+		for _, q := range fn.Params {
+			if b, ok := q.Type().Underlying().(*types.Basic); ok && b.Kind() == types.String {
+				p = q
+			}
+		}
+		return p
+	}
+	type t struct{ pkg, name string }
+	for _, x := range []t{{"content/memory", "Store.Tag"}, {"content/oci", "Store.Tag"}, {"content/file", "Store.Tag"}} {
+		fn := c06Fn(c, R, x.pkg, x.name)
+		if fn == nil {
+			continue
+		}
+		tn := FnName(fn)
+		desc, ref := c07DescParam(fn), strParam(fn)
+		if desc == nil || ref == nil {
+			c.LostAnchor(R, tn+": descriptor and reference parameters")
+			continue
+		}
+		root := c05Root(fn)
+		isDesc := func(v ssa.Value, e *c05Env) bool {
+			w, at := e.up(v)
+			return at.isRoot() && c05DescSource(w) == desc
+		}
+		okOthers, whyOthers := true, ""
+		tableBinds := false
+		isSelfDigest := func(r ssa.Value, rat *c05Env) bool {
+			rs := Roots(r)
+			for _, rr := range rs {
+				sc, isC := strip(rr).(*ssa.Call)
+				if !isC || CalleeName(sc) != "(digest.Digest).String" || len(sc.Call.Args) != 1 {
+					return false
+				}
+				p := c05FieldOfParam(sc.Call.Args[0], "Digest")
+				if p == nil {
+					return false
+				}
+				if w, wat := rat.up(p); !wat.isRoot() || w != ssa.Value(desc) {
+					return false
+				}
+			}
+			return len(rs) > 0
+		}
+		binding := c05PassSpec{Success: true, Instr: func(in ssa.Instruction, e *c05Env) bool {
+			call, ok := in.(*ssa.Call)
+			if !ok || !isTagEffect(CalleeName(call)) {
+				return false
+			}
+			a := call.Call.Args
+			if len(a) < 2 {
+				return false
+			}
+			r, rat := e.up(a[len(a)-1])
+			return rat.isRoot() && strip(r) == ssa.Value(ref) && isDesc(a[len(a)-2], e)
+		}}
+		for _, e := range c05TreeEnvs(root, 3) {
+			for _, call := range Calls(e.Fn, isTagEffect) {
+				if binding.Instr(call.(ssa.Instruction), e) {
+					continue
+				}
+				a := call.Common().Args
+				// the descriptor's own digest string -> the same descriptor
+				self := false
+				if len(a) >= 2 && isDesc(a[len(a)-2], e) {
+					r, rat := e.up(a[len(a)-1])
+					self = isSelfDigest(r, rat)
+				}
+				// `for _, ref := range slices.Compact([]string{desc.Digest.String(), reference}) { Tag(desc, ref) }`: the reference is
+				// the current element of a loop over a literal table of allowed references
+				if !self && len(a) >= 2 && isDesc(a[len(a)-2], e) {
+					for _, it := range c05ItersIn(e) {
+						if it.Loop == nil || it.slice == nil || !it.IsElem(a[len(a)-1], e, "val") {
+							continue
+						}
+						tbl, tat := e.up(it.slice)
+						elems, okEl := c06SliceElems(tbl, 0)
+						allAllowed, hasRef := okEl && len(elems) > 0, false
+						for _, el := range elems {
+							w, wat := tat.up(el)
+							switch {
+							case wat.isRoot() && strip(w) == ssa.Value(ref):
+								hasRef = true
+							case isSelfDigest(w, wat):
+							default:
+								allAllowed = false
+							}
+						}
+						if !allAllowed {
+							continue
+						}
+						self = true
+						if hasRef && it.Exact() {
+							callSpec := c05PassSpec{Success: true, Instr: func(in ssa.Instruction, _ *c05Env) bool { return in == call.(ssa.Instruction) }}
+							entrySpec := c05PassSpec{Success: true, Instr: func(in ssa.Instruction, e2 *c05Env) bool { return in == it.Entry() && e2.Fn == it.In.Fn }}
+							if !it.Skips(callSpec) && c05SuccessPasses(root, entrySpec) {
+								tableBinds = true
+							}
+						}
+					}
+				}
+				if !self {
+					okOthers, whyOthers = false, "the tag effect at "+c.P.Pos(call.Pos())+" binds something other than (reference -> desc) or (desc's digest -> desc)"
+				}
+			}
+		}
+		ok := (c05SuccessPasses(root, binding) || tableBinds) && okOthers
+		c.Check(R, tn+"|binds-callers-reference-to-callers-descriptor", fn.Pos(), ok,
+			ifelse(ok, "every successful Tag binds the caller's reference to the caller's descriptor in the tag resolver; no other binding but the digest self-tag",
+				ifelse(!okOthers, whyOthers, "Tag can succeed without binding the caller's reference to the caller's descriptor (normalised / replaced reference or descriptor): Resolve(reference) does not return what was tagged last")))
+	}
+	for _, x := range []t{{"content/memory", "Store.Resolve"}, {"content/file", "Store.Resolve"}, {"content/oci", "Store.Resolve"}, {"content/oci", "ReadOnlyStore.Resolve"}} {
+		fn := c06Fn(c, R, x.pkg, x.name)
+		if fn == nil {
+			continue
+		}
+		tn := FnName(fn)
+		ref := strParam(fn)
+		n, ok := 0, true
+		for _, e := range c05TreeEnvs(c05Root(fn), 3) {
+			for _, call := range Calls(e.Fn, func(n string) bool {
+				return n == "(~/content.Resolver).Resolve" || n == "(*~/internal/resolver.Memory).Resolve" || n == "(~/content.TagResolver).Resolve"
+			}) {
+				n++
+				a := call.Common().Args
+				r, rat := e.up(a[len(a)-1])
+				if !(rat.isRoot() && ref != nil && strip(r) == ssa.Value(ref)) {
+					ok = false
+				}
+			}
+		}
+		if n == 0 {
+			continue // reported by R2 (resolver-verdict-returned)
+		}
+		c.Check(R, tn+"|asks-for-callers-reference", fn.Pos(), ok,
+			ifelse(ok, "the tag resolver is asked for exactly the caller's reference", "Resolve asks the tag resolver for something other than the caller's reference (normalised / rewritten): it can return a descriptor tagged under a different reference"))
+	}
+}
+
+// c06SliceElems: the values a slice built in this function can contain: the elements of its literal, of what was
+// appended, of the slices it was cut from (s[i:j]), and of slices.Compact / slices.Clone of such — a value-set
+// over-approximation (which of them are present on a given path is not decided).
+func c06SliceElems(v ssa.Value, depth int) ([]ssa.Value, bool) {
+	if depth > 5 {
+		return nil, false
+	}
+	var out []ssa.Value
+	for _, r := range Roots(v) {
+		r = strip(r)
+		switch x := r.(type) {
+		case *ssa.Slice:
+			if al, isA := x.X.(*ssa.Alloc); isA {
+				if _, isArr := al.Type().(*types.Pointer).Elem().Underlying().(*types.Array); isArr {
+					for _, ref := range *al.Referrers() {
+						ia, ok := ref.(*ssa.IndexAddr)
+						if !ok {
+							continue
+						}
+						for _, r2 := range *ia.Referrers() {
+							if st, isSt := r2.(*ssa.Store); isSt && st.Addr == ssa.Value(ia) {
+								out = append(out, st.Val)
+							}
+						}
+					}
+					continue
+				}
+			}
+			sub, ok := c06SliceElems(x.X, depth+1)
+			if !ok {
+				return nil, false
+			}
+			out = append(out, sub...)
+		case *ssa.Call:
+			switch CalleeName(x) {
+			case "builtin:append":
+				for _, a := range x.Call.Args {
+					sub, ok := c06SliceElems(a, depth+1)
+					if !ok {
+						return nil, false
+					}
+					out = append(out, sub...)
+				}
+			case "slices.Compact", "slices.Clone":
+				sub, ok := c06SliceElems(x.Call.Args[0], depth+1)
+				if !ok {
+					return nil, false
+				}
+				out = append(out, sub...)
+			default:
+				return nil, false
+			}
+		case *ssa.Const:
+			if x.Value != nil {
+				return nil, false
+			}
+		default:
+			return nil, false
+		}
+	}
+	return out, true
 }
